@@ -303,6 +303,8 @@ def run(ctx):
     drv = ctx.driver("heap")
     if not qh or not drv:
         return
+    if getattr(ctx, "replay_path", None):
+        return replay_one(ctx, qh, drv)
     rng = ctx.rng
     base = os.path.dirname(os.path.dirname(os.path.dirname(os.path.abspath(__file__))))
 
@@ -418,6 +420,7 @@ def run(ctx):
     hist_w = {}
     hist_feat = {}
     agree = agree_fixed = disagree = 0
+    modes_seen = {}
     ops_compared = 0
     f9_cases = resover_cases = f46_cases = 0
     distinct = set()
@@ -486,8 +489,9 @@ def run(ctx):
             if m.startswith("(agree"):
                 mm = re.match(r"\(agree (\d+) (\w+)\)", m)
                 ops_compared += int(mm.group(1))
-                if mm.group(2) == "fixed":
+                if mm.group(2) != "unfixed":
                     agree_fixed += 1
+                    modes_seen[mm.group(2)] = modes_seen.get(mm.group(2), 0) + 1
                 else:
                     agree += 1
             elif m.startswith("(empty)"):
@@ -523,7 +527,7 @@ def run(ctx):
         "programs_leaving_orphan_slots_after_spawn": len(progs_orphans), "orphan_slots_total": tot["orphans"],
         "traces_validated_against_impl": agree + agree_fixed,
         "model_operations_compared": ops_compared,
-        "model_agrees_as_found": agree, "model_agrees_only_with_F9_repaired": agree_fixed,
+        "model_agrees_as_found": agree, "model_agrees_only_with_a_repair_applied": agree_fixed, "repaired_model_modes": modes_seen,
         "disagreements_checked": disagree + bad,
         "f9_runs": f9_cases, "f45h_result_overwrite_runs": resover_cases, "f46_orphan_runs": f46_cases, "f28_probes": len(f28), "f28_bad": f28_bad,
         "histogram_quantum": {str(k): v for k, v in sorted(hist_q.items(), key=lambda x: str(x[0]))},
@@ -533,6 +537,29 @@ def run(ctx):
     if not ok:
         ctx.violation({"kind": "theorem-broken", "theorem": getattr(ctx, "broken_theorem", "?"),
                        "searched": "%d runs on the real executors, %d oracle failures" % (len(cases), bad)}, no_input=(bad == 0))
+
+
+def replay_one(ctx, qh, drv):
+    """./check C06 --replay <file>: re-run the recorded case on the real code (and the model)."""
+    rep = json.load(open(ctx.replay_path))
+    line = rep.get("shrunk_case") or rep.get("case")
+    if not line:
+        ctx.cov.update({"evaluations": 0, "replayed": ctx.replay_path, "note": "replay file holds no case"})
+        return
+    args = ["--env"] if "Repl" in str(rep.get("mode", "")) else []
+    if not args and "(quantum 1)" in line and "(trace 0)" in line:
+        line = line.replace("(trace 0)", "(trace 1)")
+    rc, out = ctx.run_bin(qh, [line], args=args, timeout=600)
+    status, detail, stats, trace = parse_res(out[0]) if out else ("garbled", "", {}, "(trace)")
+    cl = classify(status, detail, stats)
+    model = ctx.run_bin(drv, [trace], timeout=600)[1] if trace != "(trace)" else ["(empty)"]
+    ctx.cov.update({"evaluations": 1, "replayed": ctx.replay_path, "status": status, "detail": detail[:500],
+                    "model": model[0][:500] if model else "", "disagreements_checked": 1})
+    key = {"F9": "F9", "resover": "F45h"}.get(cl[0]) if cl else None
+    if cl is not None:
+        ctx.violation({"kind": "impl-violation", "what": cl[1], "case": line, "detail": detail, "stats": stats}, finding_key=key)
+    elif model and model[0].startswith("(disagree"):
+        ctx.violation({"kind": "correspondence-broken", "case": line, "model_says": model[0][:3000]}, no_input=True)
 
 
 def shrink(ctx, qh, obj, stmts, meta):
